@@ -77,7 +77,7 @@ theorem rel_to_abs_value (s : State) (base : BitVec 64) (acc : RelocAcc) (re : R
       (match (acc.secs[re.srcSec]?).bind (fun sec => writeOffset sec.buf re.srcOff (re.payload + (base + tgt.offset)) re.fmt) with
        | some buf' => .ok { acc with secs := setBuf acc.secs re.srcSec buf' }
        | none => .error .invalidRelocEntry) := by
-  unfold relocStep
+  unfold relocStep relocPrep relocFinish
   simp [hty, hsrc, hb, ht, htg]
   cases writeOffset src.buf re.srcOff (re.payload + (base + tgt.offset)) re.fmt <;> rfl
 
